@@ -4548,7 +4548,8 @@ class Peek(Subconstruct):
                     return func()
                 except ExplicitError:
                     raise
-                except ConstructError:
+                except Exception:
+                    # generated parsers signal a short read with struct.error and the like, not with StreamError
                     pass
                 finally:
                     io.seek(fallback)
